@@ -396,6 +396,14 @@ Example service_killed_between_batches_stays :
 Proof. vm_compute. repeat split. Qed.
 End S.
 
+(** ---------------------------------------------------------------------------------------------
+    Everything above depends on [Queues/*] and [Base/*] only.  The two modules below are the ONLY
+    part of C13 that imports other groups' developments ([Farm/*], [Htlc/*]); they come last and
+    each [Require] stands immediately before its module, so that a change of those models can
+    break nothing but the link theorems themselves ([Queues/Check.vo], the correspondence, does
+    not depend on them either).
+    --------------------------------------------------------------------------------------------- *)
+
 (** ** farm, linked to the full farm model of C05/C06 ([Farm/Model.v]): the two hypotheses of
     module [F] ([op_wf]: AdjustPool's duration is not negative; [op_clean]: no Refund of the end
     blocker fails in updatePool) are facts of that model. *)
